@@ -78,12 +78,34 @@ def build_from(rec):
     return el
 
 
-def body(rec):
+def _outcome(fn):
     try:
-        el = build_from(rec)
-        return ['ok', el.to_string()]
+        return ['ok', fn()]
     except Exception as e:  # noqa
         return ['exc', type(e).__name__, str(e)[:200]]
+
+
+def body(rec):
+    """what one thread does with its own objects: build + validate + serialise a complete tree; then the two error
+    paths a user meets - serialising an element that lacks its required attributes, and a mistyped attribute"""
+    first = _outcome(lambda: build_from(rec).to_string())
+
+    def incomplete():
+        r2 = dict(rec)
+        r2['attrs'] = {}
+        return build_from(r2).to_string()
+
+    def mistyped():
+        import musicxml.xmlelement.xmlelement as X
+        cls = getattr(X, impl.class_name_for(rec['name']))
+        el = cls(rec['value'], xsd_check=False)
+        el.no_such_attribute_xyz = 1
+        return 'accepted'
+    second = _outcome(incomplete) if rec['attrs'] else None
+    third = _outcome(mistyped)
+    if first[0] != 'ok':
+        return first
+    return ['ok', first[1], second, third]
 
 
 def in_child(fn, *args):
@@ -184,8 +206,11 @@ def work(arg):
             if r[role] != want:
                 got = r[role]
                 cls = (got[1] if got and got[0] == 'exc' else 'different-output') if got else 'no-result'
+                if got and got[0] == 'ok' and want and want[0] == 'ok':
+                    which = [n for n, (x, y) in enumerate(zip(got[1:], want[1:])) if x != y]
+                    cls = 'different-output:' + ','.join(['tree', 'missing-required-attribute', 'mistyped-attribute'][n] for n in which)
                 vio.append({'scope': sid, 'kind': 'thread-result-differs', 'key': [sid, role, cls],
-                            'schedule': i, 'preempted_at': r['where'], 'observed': got if not got or got[0] == 'exc' else got[1][:200]})
+                            'schedule': i, 'preempted_at': r['where'], 'observed': got if not got or got[0] == 'exc' else [str(x)[:160] for x in got[1:]]})
                 sites[r['where']] += 1
     return vio, n, dict(sites)
 
